@@ -39,6 +39,8 @@ def _mentions(sv, pred):
 
 def check(src, rep):
     M = Model(src)
+    from sa.oneshot import rule as _one_shot
+    _one_shot(rep, M, src, ("autodecoder",), "R1")
     ce = ConstEval(M)
     file = src.file(MOD)
     rep.count("modules", len(src.text))
